@@ -40,7 +40,7 @@ class Bitvector(CompressionFormat):
         
         for ind, (val) in a:
             if depth < len(ranks) - 1:
-                fiber, child_occupancy = codec.encode(depth + 1, val, ranks, output, output_tensor)
+                fiber, child_occupancy = codec.encode(depth + 1, val, ranks, output, output_tensor, shape=shape)
                 # store coordinate explicitly
                 self.payloads.append(fiber)
                 if isinstance(cumulative_occupancy, int):
